@@ -229,7 +229,8 @@ pub enum KsOutcome {
     Sorted,
     /// (content line index, key span) of the first strictly out-of-order key
     OutOfOrder(usize, Span),
-    /// numeric format with a key that is not a number *and that takes part in a comparison*
+    /// numeric format with a key that is not a number and that is reached before an out-of-order pair (the first
+    /// key of a block counts even when it is the only one)
     NonNumeric,
 }
 
@@ -256,6 +257,8 @@ pub fn keep_sorted(lines: &[&str], dir: Dir, pat: Option<&KeyPat>, numeric: bool
             if bad {
                 return KsOutcome::OutOfOrder(i, (s, e));
             }
+        } else if numeric && parse_plain_decimal(key).is_none() {
+            return KsOutcome::NonNumeric;
         }
         prev = Some(key);
     }
